@@ -296,13 +296,14 @@ func runTCPServer(st Stim) Trace {
 	}
 	bar := 0
 	// send on A, then a barrier Ping; its Pong means the server has processed what was sent before it
+	pl := &pipeline{on: st.Pipelined && !st.KeepAlive}
 	send := func(raw []byte) {
 		if raw != nil {
-			_, _ = A.c.Write(raw)
+			_, _ = A.c.Write(pl.chunk(raw))
 		}
 		bar++
 		tok := []byte{0xBA, byte(bar >> 8), byte(bar)}
-		_, _ = A.c.Write(conns.Frame(int(codes.Ping), tok, nil, nil))
+		_, _ = A.c.Write(pl.chunk(conns.Frame(int(codes.Ping), tok, nil, nil)))
 		hooks.WaitFor(500*time.Millisecond, func() bool { A.mu.Lock(); defer A.mu.Unlock(); return A.pongs[string(tok)] })
 		hooks.Quiesce(ccA, 500*time.Millisecond)
 	}
